@@ -2,7 +2,7 @@
 # runs every seeded change against the check(s) of the property it breaks; prints one line per (seed, check)
 # usage: tools_seedmatrix.sh [seed ...]      (sequential: the seeds are applied to /repo's working tree one at a time)
 cd /verif
-declare -A TARGET=( [F10-revert]="C04" [F4-revert]="C04" [F8a-revert]="C19" [F5F6-revert]="C12" [F5p-revert]="C12" [F9a-revert]="C08 C13" [F12-revert]="C07" [F13-revert]="C12" [F14-revert]="C14" [C12]="C12 C07" [C13]="C13 C12" [C12-r2]="C12 C08" )
+declare -A TARGET=( [F10-revert]="C04" [F4-revert]="C04" [F8a-revert]="C19" [F5F6-revert]="C12" [F5p-revert]="C12" [F9a-revert]="C08 C13" [F12-revert]="C07" [F13-revert]="C12" [F14-revert]="C14" [F15-revert]="C14" [C12]="C12 C07" [C13]="C13 C12" [C12-r2]="C12 C08" )
 seeds=${@:-$(ls seeded)}
 for s in $seeds; do
   [ -d seeded/$s ] || continue
